@@ -53,6 +53,31 @@ logger = get_logger(__name__)
 
 # signature, bb, systemz
 # signature, bb, random_min_c_rep
+def _load_json_or_pickle(path: pathlib.Path) -> object:
+    """Read a file written by ``save_metadata`` / ``export_impacts``.
+
+    The writers choose JSON or pickle from the (case-insensitive) suffix or, for any other
+    suffix, from their ``fmt`` argument (default JSON); the reader therefore cannot rely on
+    the suffix alone.  The format the suffix suggests is tried first, the other one second.
+    """
+    raw = path.read_bytes()
+
+    def from_json() -> object:
+        return json.loads(raw.decode("utf-8"))
+
+    def from_pickle() -> object:
+        return pickle.loads(raw)
+
+    if path.suffix.lower() in {".pkl", ".pickle"}:
+        readers = [from_pickle, from_json]
+    else:
+        readers = [from_json, from_pickle]
+    try:
+        return readers[0]()
+    except Exception:
+        return readers[1]()
+
+
 class PreOCF(ABC):
     """Abstract base class for ordinal conditional functions (Pre-OCFs).
 
@@ -205,11 +230,7 @@ class PreOCF(ABC):
             )
             return
 
-        if path.suffix == ".json":
-            data = json.loads(path.read_text())
-        else:  # assume pickle by default
-            with path.open("rb") as fd:
-                data = pickle.load(fd)
+        data = _load_json_or_pickle(path)
 
         if not isinstance(data, dict):
             raise ValueError("Metadata file did not contain a dict")
@@ -1038,13 +1059,7 @@ class RandomMinCRepPreOCF(PreOCF):
         if not path.exists():
             raise FileNotFoundError(f"Impact file not found: {path}")
 
-        # Determine format from file extension
-        if path.suffix == ".json":
-            with path.open("r") as fd:
-                impact_data = json.load(fd)
-        else:  # assume pickle
-            with path.open("rb") as fd:
-                impact_data = pickle.load(fd)
+        impact_data = _load_json_or_pickle(path)
 
         # Validate the imported data
         if not isinstance(impact_data, dict):
